@@ -56,11 +56,11 @@ class Ctx:
 
 
 # ------------------------------------------------------------------------------------------ solving
-def _solve_api(hyps, goal, timeout_ms):
+def _solve_api(hyps, goal, timeout_ms, facts=()):
+    from . import simp
     s = z3.Solver()
     s.set("timeout", timeout_ms)
-    s.add(*hyps)
-    s.add(z3.Not(goal))
+    s.add(*simp.prepare(list(facts), list(hyps), goal))
     t0 = time.time()
     r = s.check()
     return str(r), time.time() - t0, s
@@ -93,9 +93,9 @@ def smt2_text(solver):
     return "(set-logic ALL)\n" + solver.to_smt2()
 
 
-def discharge(name, hyps, goal, tier="quick"):
+def discharge(name, hyps, goal, tier="quick", facts=()):
     """returns dict(verdict, backend, seconds, backends={...}, solver) ; verdict in unsat/sat/unknown"""
-    r, secs, s = _solve_api(hyps, goal, Z3_TIMEOUT_MS if tier == "quick" else 3 * Z3_TIMEOUT_MS)
+    r, secs, s = _solve_api(hyps, goal, Z3_TIMEOUT_MS if tier == "quick" else 3 * Z3_TIMEOUT_MS, facts)
     res = dict(name=name, verdict=r if r in ("sat", "unsat") else "unknown", backend="z3-5.1-api", seconds=round(secs, 4),
                backends={"z3-5.1-api": [r, round(secs, 4)]})
     need_others = (res["verdict"] == "unknown") or tier == "thorough"
@@ -197,16 +197,16 @@ def verify(contract, repo, tier="quick"):
                 res["out_of_reach"] = "case %s post: %s" % (case.label, e)
                 return res
             desc = "raise %s" % val.cls.__name__ if kind == "raise" else kind
-            obls.append(("%s/%s/path%d[%s]:post" % (contract.id, case.label, i, desc), list(E.facts) + list(st.pc), goal, kind, val))
+            obls.append(("%s/%s/path%d[%s]:post" % (contract.id, case.label, i, desc), list(st.pc), goal, kind, val))
         for nm, st, goal in E.obl:
-            obls.append(("%s/%s/%s" % (contract.id, case.label, nm), list(E.facts) + list(st.pc), goal, "side", None))
+            obls.append(("%s/%s/%s" % (contract.id, case.label, nm), list(st.pc), goal, "side", None))
         if case.extra:
             for nm, hyps, goal in case.extra(E, paths):
-                obls.append(("%s/%s/%s" % (contract.id, case.label, nm), list(E.facts) + list(hyps), goal, "lemma", None))
+                obls.append(("%s/%s/%s" % (contract.id, case.label, nm), list(hyps), goal, "lemma", None))
         for nm, hyps, goal, kind, val in obls:
             if isinstance(goal, bool):
                 goal = z3.BoolVal(goal)
-            d = discharge(nm, hyps, goal, tier)
+            d = discharge(nm, hyps, goal, tier, E.facts)
             solver = d.pop("_solver")
             if d["verdict"] == "sat":
                 w = model_values(solver, case.symbols, case.minimize)
